@@ -123,36 +123,52 @@ def py_expected(truth):
 _names_cache = {}
 
 
+NEED_EVEN = {}     # per repo: names that parse as a definition only where the previous line cannot continue as an expression
+
+
 def valid_names():
-    """(label names, constant names, local label names) accepted silently by the real parser."""
+    """(label names, constant names, local label names) accepted silently by the real parser.
+    First character over letters and '_' '$' '.', later characters also digits.  A name is kept when the trial program assembles without
+    any diagnostic -- NOT by looking at how the implementation stored it: that a name not starting with a digit is an ordinary symbol is
+    the property's side.  Names starting with an operator character ('_' is the shift operator, '$' ...) continue the expression of the
+    line before, so they are tried, and later used, right after '.even'."""
     key = C.REPO
     if key in _names_cache:
         return _names_cache[key]
     cand = ["a_b", "A_b", "x$", "a", "A", "b", "B", "c", "a.b", "A.B", "a.b.c", "x$1", "X$1", "$", "_", "lab", "LAB", "Lab", "k", "K", ".x", "..", "z.",
             ".internal7.z", "i.internal2.q", "$$", "a1", "a10", "a2", "aa", "Aa", "aA", "Z", "_a", "start", "Start", "loop", "end_", "e",
-            "ſ", "K", "s", "q.1", "q.10", "q.2", "$a", ".a", ".A", "local1", "internal", ".local1.x", "o", "O", "zz", "zZ", "Zz"]
-    locs = ["1$", "2$", "10$", "1", "7a", "3$"]
+            "\u017f", "\u212a", "s", "q.1", "q.10", "q.2", "$a", ".a", ".A", "local1", "internal", ".local1.x", "o", "O", "zz", "zZ", "Zz",
+            "_A", "_1", "_.", "_$", "__", "$A", "$1", "$.", "$_", "$x.y", "_buf", "$tmp", ".loop", "._", ".$", ".1", "._a", "_internal", "$local1.x"]
+    locs = ["1$", "2$", "10$", "1", "7a", "3$", "0", "9_", "4.$"]
     jobs = []
     for n in cand:
-        # tried after an expression and after a directive: the parser continues an expression over a newline
-        # when the next line starts with an operator character ('_' is the shift operator)
-        jobs.append((([("/n/t.mac", f"zq = 5\n{n}: .byte 1\n.byte 2\n{n}9: .byte 1\n")],), {"want_symbols": True}))
-        jobs.append((([("/n/t.mac", f"zq = 5\n{n} = 1\n.byte 2\n{n}9 = zq + 1\n")],), {"want_symbols": True}))
+        jobs.append((([("/n/t.mac", f"zq = 5\n{n}: .byte 1\n.byte 2\n{n}9: .byte 1\n")],), {}))
+        jobs.append((([("/n/t.mac", f"zq = 5\n{n} = 1\n.byte 2\n{n}9 = zq + 1\n")],), {}))
+        jobs.append((([("/n/t.mac", f"zq = 5\n.even\n{n}: .byte 1\n.byte 2\n.even\n{n}9: .byte 1\n")],), {}))
+        jobs.append((([("/n/t.mac", f"zq = 5\n.even\n{n} = 1\n.byte 2\n.even\n{n}9 = zq + 1\n")],), {}))
     for n in locs:
-        jobs.append((([("/n/t.mac", f"zq = 5\n{n}: .byte 1\n")],), {"want_symbols": True}))
+        jobs.append((([("/n/t.mac", f"zq = 5\n.even\n{n}: .byte 1\n")],), {}))
     outs = impl.pmap("assemble", jobs)
-    labs, consts, lls = [], [], []
+    clean = lambda o: o["outcome"] == "ok" and not o["diags"] and o["code"] is not None
+    labs, consts, lls, need = [], [], [], set()
     for i, n in enumerate(cand):
-        a, b = outs[2 * i], outs[2 * i + 1]
-        if a["outcome"] == "ok" and not a["diags"] and [x[0] for x in a["symbols"]] == [".internal1.zq", ".internal1." + n, ".internal1." + n + "9"]:
+        a, b, ae, be = outs[4 * i:4 * i + 4]
+        if clean(a) and len(bytes.fromhex(a["code"])) == 3:
             labs.append(n)
-        if b["outcome"] == "ok" and not b["diags"] and [x[0] for x in b["symbols"]] == [".internal1.zq", ".internal1." + n, ".internal1." + n + "9"]:
+        elif clean(ae) and len(bytes.fromhex(ae["code"])) in (3, 4):
+            labs.append(n)
+            need.add(n)
+        if clean(b) and len(bytes.fromhex(b["code"])) == 1 and n not in need:
             consts.append(n)
+        elif clean(be) and len(bytes.fromhex(be["code"])) in (1, 2) and (n in need or n not in labs):
+            consts.append(n)
+            need.add(n)
     for i, n in enumerate(locs):
-        a = outs[2 * len(cand) + i]
-        if a["outcome"] == "ok" and not a["diags"] and len(a["symbols"]) == 2 and a["symbols"][1][0].startswith(".local"):
+        a = outs[4 * len(cand) + i]
+        if clean(a):
             lls.append(n)
     assert len(labs) >= 20 and len(consts) >= 20 and lls, (labs, consts, lls)
+    NEED_EVEN[key] = need
     _names_cache[key] = (labs, consts, lls)
     return _names_cache[key]
 
@@ -199,8 +215,11 @@ def spell_include(rng, inc_path, from_file, lexical):
                   "absolute/./": d + "/./" + base, "absolute//": d + "//" + base}[kind]
 
 
-def gen_body(rng, fname, names, includes, marker_ids, n_stmts, allow_end=True, first_link=None, once=False, lexical=False):
+def gen_body(rng, fname, names, includes, marker_ids, n_stmts, allow_end=True, first_link=None, once=False, lexical=False, can_skip=False):
     labs, consts, lls = names
+    need_even = NEED_EVEN.get(C.REPO, set())
+    pre = lambda n: ".even\n" if n in need_even else ""     # such a name is a definition only where the line before cannot go on as an expression
+    since = {}          # own label -> upper bound of the bytes laid down since it (for '. = label + distance')
     b = Body(fname)
     pending = []        # definitions of the constants that deferred-size statements refer to before they are defined
     if once:
@@ -219,7 +238,15 @@ def gen_body(rng, fname, names, includes, marker_ids, n_stmts, allow_end=True, f
                 return n
         return None
 
+    accounted = len(b.stmts)
     for _ in range(n_stmts):
+        for st in b.stmts[accounted:]:
+            bump = (3 if st["k"] == "label" else 0) + st.get("size", 0) + (1 if st.get("even") or st.get("pre_even") else 0)
+            if st["k"] == "include":
+                since.clear()
+            for x in since:
+                since[x] += bump
+        accounted = len(b.stmts)
         r = rng.random()
         if r < 0.30:
             n = fresh(labs, b.used)
@@ -228,9 +255,11 @@ def gen_body(rng, fname, names, includes, marker_ids, n_stmts, allow_end=True, f
             mid = marker_ids[0]
             marker_ids[0] += 1
             m = [0xEE, 1 + mid % 127, 1 + (mid // 127) % 127]
-            b.stmts.append({"k": "label", "name": n, "marker": m, "text": f"{n}: .byte {m[0]:o}, {m[1]:o}, {m[2]:o}\n", "dead": ended})
+            b.stmts.append({"k": "label", "name": n, "marker": m, "text": f"{pre(n)}{n}: .byte {m[0]:o}, {m[1]:o}, {m[2]:o}\n", "dead": ended,
+                            "pre_even": n in need_even})
             if not ended:
                 own_labels.append(n)
+                since[n] = -(1 if n in need_even else 0)     # the common bump adds pad + marker: the distance counts from the label's own address
         elif r < 0.62:
             n = fresh(consts, b.used)
             if n is None:
@@ -242,15 +271,25 @@ def gen_body(rng, fname, names, includes, marker_ids, n_stmts, allow_end=True, f
                 v = rng.choice(BOUNDARY)
             else:
                 v = rng.randrange(-2 ** rng.choice([4, 12, 20, 40, 90]), 2 ** rng.choice([4, 12, 20, 40, 90]))
-            b.stmts.append({"k": "const", "name": n, "value": v, "text": f"{n} = {spell(rng, v)}\n", "dead": ended})
-        elif r < 0.70 and [x for x in own_labels if not x.startswith(".")] and not ended:
+            b.stmts.append({"k": "const", "name": n, "value": v, "text": f"{pre(n)}{n} = {spell(rng, v)}\n", "dead": ended, "pre_even": n in need_even})
+        elif r < 0.70 and can_skip and not ended and [x for x in since if x[0].isalpha()] and rng.random() < 0.7:
+            # move the location counter forward to an address given relative to an own label; also spelled as the same address minus 2**16
+            # (accepted, taken modulo 2**16).  The distance is at least what lies between the label and here.
+            lab = rng.choice([x for x in since if x[0].isalpha()])
+            dist = since[lab] + rng.choice([0, 0, 1, 2, 5])
+            how = rng.randrange(3)
+            expr = [f"{lab} + {dist:o}", f"{lab} + {dist:o} - 200000", f"-200000 + {lab} + {dist:o}"][how]
+            b.stmts.append({"k": "skip", "label": lab, "dist": dist, "text": f". = {expr}\n", "tag": "skip-negative" if how else "skip"})
+            since.clear()
+            since[lab] = dist          # exact from here on
+        elif r < 0.70 and [x for x in own_labels if x[0].isalpha()] and not ended:
             n = fresh(consts, b.used)
             if n is None:
                 continue
-            lab = rng.choice([x for x in own_labels if not x.startswith(".")])   # ".x" in an expression reads as '.' then 'x'
+            lab = rng.choice([x for x in own_labels if x[0].isalpha()])   # ".x" in an expression reads as '.' then 'x'; '_', '$' are operators
             d = rng.choice([0, 0, 1, -1, 2, 3, -0o1000, 0o177000])
             expr = lab if d == 0 else (f"{lab} + {d:o}" if d > 0 else f"{lab} - {-d:o}")
-            b.stmts.append({"k": "cexpr", "name": n, "label": lab, "delta": d, "text": f"{n} = {expr}\n", "dead": False})
+            b.stmts.append({"k": "cexpr", "name": n, "label": lab, "delta": d, "text": f"{pre(n)}{n} = {expr}\n", "dead": False, "pre_even": n in need_even})
         elif r < 0.78:
             n = rng.choice(lls)
             if n.lower() in b.used_local:
@@ -278,7 +317,7 @@ def gen_body(rng, fname, names, includes, marker_ids, n_stmts, allow_end=True, f
                 else:
                     k = 0
                     b.stmts.append({"k": "fill", "text": f".byte {n}, {n}\n", "size": 2, "even": False, "tag": "deferred"})
-                pending.append({"k": "const", "name": n, "value": k, "text": f"{n} = {spell(rng, k)}\n", "dead": False})
+                pending.append({"k": "const", "name": n, "value": k, "text": f"{pre(n)}{n} = {spell(rng, k)}\n", "dead": False, "pre_even": n in need_even})
                 if rng.random() < 0.5:
                     b.stmts.append(pending.pop(rng.randrange(len(pending))))
             elif kind >= 8:
@@ -323,8 +362,14 @@ class Sim:
             if k == "once":
                 if self.times[body.fname] > 1:
                     return
-            elif k == "link":
+                continue
+            if k == "link":
                 pass
+            if st.get("pre_even") and k in ("label", "const", "cexpr") and (self.base + self.off) % 2:
+                self.off += 1
+            if k == "skip":
+                assert local_vals[st["label"]] + st["dist"] >= self.base + self.off, "generator: backward skip"
+                self.off = local_vals[st["label"]] + st["dist"] - self.base
             elif k == "label":
                 v = self.base + self.off
                 local_vals[st["name"]] = v
@@ -360,14 +405,14 @@ def gen_program(rng, names, root="/w", lexical=False):
     n_files = rng.choice([1, 1, 2, 2, 3])
     base = 0o1000
     link = None
-    if rng.random() < 0.3:
+    if rng.random() < 0.4:
         link = rng.choice([0, 2, 0o400, 0o1000, 0o40000, 0o100000, 0o157000])
         base = link
     mains = []
     for i in range(n_files):
         fname = f"{root}/m{i}.mac"
         mains.append(gen_body(rng, fname, names, incs, marker_ids, rng.choice([0, 1, 2, 4, 6, 9, 12]),
-                              first_link=link if i == 0 else None, lexical=lexical))
+                              first_link=link if i == 0 else None, lexical=lexical, can_skip=link is not None))
     if n_files >= 2 and rng.random() < 0.07:
         mains[1] = mains[0] if link is None else mains[1]     # the same file linked twice
     sim = Sim(base)
@@ -383,6 +428,9 @@ def gen_program(rng, names, root="/w", lexical=False):
             "features": {"twice": any(v > 1 for v in sim.times.values()), "end": any(s["k"] == "end" for m in mains for s in m.stmts),
                          "inc": bool(incs), "link": link is not None,
                          "once": any(s["k"] == "once" for b in incs for s in b.stmts) and any(v > 1 for v in sim.times.values()),
+                         "skip": any(s.get("tag") == "skip" for b in mains for s in b.stmts),
+                         "skipneg": any(s.get("tag") == "skip-negative" for b in mains for s in b.stmts),
+                         "opname": any(s.get("pre_even") and s["k"] == "label" and not s.get("dead") for b in mains + incs for s in b.stmts),
                          "noop": any(s.get("tag") == "noop" for b in mains + incs for s in b.stmts),
                          "deferred": any(s.get("tag") == "deferred" for b in mains + incs for s in b.stmts),
                          "spell": sorted({s["how"] for b in mains + incs for s in b.stmts if s["k"] == "include"})}}
@@ -898,7 +946,8 @@ def explore(rep, br, tier, seed, spec_only=False):
                         rep.count("include-spelling:" + how)
                     continue
                 rep.count("feature:" + {"twice": "file-compiled-twice", "end": ".end-early", "inc": "has-include", "link": "explicit-.link",
-                                        "once": ".once-file-reached-again", "noop": "operand-less-data-directive", "deferred": "deferred-size-statement"}[k])
+                                        "once": ".once-file-reached-again", "noop": "operand-less-data-directive", "deferred": "deferred-size-statement", "skip": "location-counter-skip",
+                                        "skipneg": "location-counter-skip-spelled-negative", "opname": "label-starting-with-_-or-$"}[k])
         if len(p["files"]) > 1:
             rep.count("feature:multi-file")
     if meta:
